@@ -23,29 +23,40 @@ LEAN_MODULES = ["DaskModel.Props.C20"]
 TABLES = ["ChunkTolerance"]   # array.chunk-size-tolerance (dask.yaml), used by the take/_shuffle regrouping model
 CASE_TIMEOUT_S = 20
 LEVEL_TEXT = (
-    "Lean 4 theorems over a transliteration of normalize_slice, _slice_1d (integer, positive-step and "
-    "negative-step branches with the bisect shortcuts), new_blockdim, check/posify of integers and the planning "
-    "part of take: for every list of chunk lengths (zero-length chunks included) and every slice, normalisation "
-    "preserves Python's selection, the concatenation over the output blocks, in output order, of the in-block "
-    "slices is exactly Python's slice of the whole axis (slice1d_correct, getitem1d_correct), and the lazily "
-    "reported block sizes are the sizes of those pieces and sum to the selection length (newBlockdim_correct); an "
-    "integer index addresses the right block and offset; take's no-op shortcut fires exactly for the full arange "
-    "and its regrouping keeps the indexer (take_den). Validated against NumPy, not proved: the N-d product of the "
-    "per-axis plans, the per-source-block split/merge inside _shuffle, boolean masks, dask-array indexers, vindex, "
-    "blocks[]."
+    "Lean 4 theorems (no size bound) over transliterations of the anchored path of Array.__getitem__. One axis: "
+    "normalize_slice keeps Python's selection and yields the normal form _slice_1d needs; the plan of _slice_1d "
+    "(integer, positive- and negative-step loops with the bisect shortcuts), read in output-block order, is exactly "
+    "range(*s.indices(n)) for every chunk list incl. zero-length chunks (slice1d_correct, getitem1d_correct); "
+    "new_blockdim reports the sizes of those pieces (newBlockdim_correct); integers address the right block/offset. "
+    "N-d: the graph of slice_slices_and_integers (three itertools.products zipped) has exactly one task per "
+    "combination of per-axis (output coordinate, block, in-block index) pairs (sliceND_tasks), and the block at "
+    "output coordinate o reads the stretch of NumPy's selection at the offset the lazy chunks assign to o "
+    "(sliceND_axis_slice/_int) — so x[s1,…,sn] is the per-axis product, chunk by chunk. normalize_index "
+    "(Ellipsis, padding, np.newaxis, bool masks -> nonzero) returns one non-None entry per axis, no Ellipsis, all "
+    "newaxes kept (normalize_index_spec, mask_nonzero_den). take: the no-op shortcut fires exactly for the full "
+    "arange, regrouping keeps the indexer (take_den). vindex: grouping the points by (output block, input blocks) "
+    "loses/duplicates none, point i lands at block i/M index i%M and is read at in-block indices that address its "
+    "own coordinates (vindex_den). Validated against NumPy only: the per-source-block split / argsort / merge "
+    "inside _shuffle, dask-array indexers (slice_with_int/bool_dask_array), full-shape masks, blocks[], and NumPy's "
+    "behaviour on one block."
 )
 LEVEL_NOTE = (
-    "Trusted: Lean kernel; the hand-written model (diffed against the real functions on every run: "
-    "exhaustively for all slices with start/stop in [-n-2,n+2] and step in ±{1,2,3,n} over all chunkings "
-    "of n<=6 in the thorough tier, sampled in quick); CPython slice/range semantics as transliterated in "
-    "pyIndices/pyRange (diffed against slice.indices/range); NumPy per-block getitem."
+    "Trusted: Lean kernel; the hand-written models Slice1D / SliceND / NormIndex / Take / VIndex, each diffed on "
+    "every run against the real function at function level (_slice_1d, new_blockdim, normalize_slice, "
+    "normalize_index, slice_slices_and_integers incl. key order and blockdims, take, the slice/merge tasks of "
+    "_vindex_array) — exhaustively for all slices with start/stop in [-n-2,n+2], step in ±{1,2,3,n} over all chunkings "
+    "of n<=6 in the thorough tier, sampled in quick; CPython slice/range semantics as transliterated in "
+    "pyIndices/pyRange (diffed against slice.indices/range); NumPy getitem on one block; np.ravel_multi_index / "
+    "np.argsort group the vindex points by key (the model groups by key directly)."
 )
 TECHNIQUE = "Lean 4 proof (induction over the chunk list, index maps) + differential correspondence with dask/array/slicing.py and NumPy"
 ASSUMPTIONS = [
     "seq[s] == [seq[i] for i in range(*s.indices(len(seq)))] (Python data model) — pyIndices/pyRange are diffed against slice.indices/range",
-    "bisect.bisect_left/right on the non-decreasing cumulative sums = number of leading elements < / <= x",
-    "NumPy getitem on one block with a tuple of slices/ints is the per-axis product of 1-d selections",
+    "bisect.bisect_left/right and np.searchsorted(side='right') on the non-decreasing cumulative sums = number of leading elements < / <= x",
+    "NumPy getitem on one block with a tuple of slices/ints/one integer list is the per-axis product of 1-d selections",
     "math.ceil((1.0*stop-start)/step) is exact for the (small) block extents involved",
+    "np.unravel_index(np.ravel_multi_index(t, shape), shape) == t, and argsort of the ravelled keys lists equal keys contiguously (vindex grouping)",
+    "_vindex_merge places values[k][j] at locations[k][j]; concatenate3 assembles blocks by their coordinates",
 ]
 TRUSTED = ["dask.array.chunk.getitem / NumPy basic indexing on a single block"]
 
@@ -757,6 +768,66 @@ def case_vindex(ctx, inp):
         ctx.branch("vindex-nd-points")
 
 
+def case_vindexplan(ctx, inp):
+    """_vindex_array at graph level: the slice tasks (input block, in-block indices) and merge tasks (output block,
+    output indices) vs the Lean model `VIndex.groups`; chunks of the point axis; the graph computed = NumPy."""
+    import numpy as np
+    import dask.array as da
+    from dask.array.core import _vindex_array
+    chunks = tuple(tuple(c) for c in inp["chunks"])
+    shape = tuple(sum(c) for c in chunks)
+    axes = list(inp["axes"])
+    pts = [list(p) for p in inp["points"]]          # one coordinate vector (indexed axes only) per point
+    x = np.arange(int(np.prod(shape))).reshape(shape) * 3 + 1
+    d = da.from_array(x, chunks=chunks)
+    dict_indexes = {ax: np.array([p[j] for p in pts], dtype=int) for j, ax in enumerate(axes)}
+    r = _vindex_array(d, dict_indexes)
+    model = unsym(ctx.lean(Sym("vindexplan"), [list(chunks[a]) for a in axes], pts))
+    if model[0] != "ok":
+        ctx.disagree("vindex plan", model, "ok")
+        return
+    M, pchunks, mgroups = model[1], model[2], model[3]
+    ctx.eq("chunks of the point axis", pchunks, [int(c) for c in r.chunks[0]])
+    if pts:
+        g = dict(r.__dask_graph__())
+        sl = {k: v for k, v in g.items() if isinstance(k, tuple) and str(k[0]).startswith("vindex-slice-")}
+        mg = {k: v for k, v in g.items() if isinstance(k, tuple) and str(k[0]).startswith("vindex-merge-")}
+        other = [a for a in range(len(shape)) if a not in axes]
+        okey0 = tuple(0 for _ in other)
+        impl = []
+        for k in sorted(mg, key=lambda k: k[1]):
+            if tuple(k[2:]) != okey0:
+                continue
+            t = mg[k]
+            indexers, refs = t.args[0], t.args[1]
+            refs = list(refs.args) if hasattr(refs, "args") else list(refs)
+            for ind, ref in zip(indexers, refs):
+                st = sl[ref.key]
+                bkey = st.args[0].key
+                blocks = [int(bkey[1 + a]) for a in axes]
+                pnt = st.args[1]
+                inblock = [np.asarray(pnt[a]).tolist() for a in axes]
+                pairs = sorted((int(o), [int(ib[j]) for ib in inblock]) for j, o in enumerate(np.asarray(ind).tolist()))
+                impl.append((int(ref.key[1]), [int(k[1])] + blocks, pairs))
+        impl.sort(key=lambda t: t[0])
+        got = [[key, [[o, ib] for o, ib in pairs]] for _, key, pairs in impl]
+        want = [[key, sorted([[q[1], q[2]] for q in qs])] for key, qs in mgroups]
+        ctx.eq("vindex slice/merge tasks (key order, per task the (output index, in-block index) pairs)", want, got)
+    out = np.asarray(r.compute(scheduler="sync"))
+    idx = tuple(dict_indexes[a] if a in axes else slice(None) for a in range(len(shape)))
+    moved = np.moveaxis(x, axes, list(range(len(axes))))
+    exp = moved[tuple(dict_indexes[a] for a in axes)] if pts else moved[tuple(np.array([], dtype=int) for _ in axes)]
+    if out.shape != exp.shape or (out != exp).any():
+        ctx.fail("_vindex_array differs from NumPy point selection", observed=out.tolist(), expected=exp.tolist())
+    ctx.branch("vindexplan")
+    if len(pts) > M:
+        ctx.branch("vindexplan-several-output-blocks")
+    if len(axes) > 1:
+        ctx.branch("vindexplan-several-axes")
+    if len(axes) < len(shape):
+        ctx.branch("vindexplan-other-axes")
+
+
 def case_exotic(ctx, inp):
     """Index elements of unusual but valid types: NumPy integer scalars (signed/unsigned), integer-valued floats,
     0-d arrays, lists of NumPy ints, small-dtype / unsigned index arrays (NumPy and dask), Python bool lists,
@@ -899,7 +970,7 @@ def case_blocks(ctx, inp):
 
 
 CASES = {"exotic": case_exotic, "maskfull": case_maskfull, "normidx": case_normidx, "take": case_take, "pyslice": case_pyslice, "norm": case_norm, "slice1d": case_slice1d, "slice1dint": case_slice1dint, "slicend": case_slicend,
-         "api1d": case_api1d, "apind": case_apind, "vindex": case_vindex, "blocks": case_blocks}
+         "api1d": case_api1d, "apind": case_apind, "vindex": case_vindex, "vindexplan": case_vindexplan, "blocks": case_blocks}
 
 
 # --------------------------------------------------------------------------------------
@@ -1192,6 +1263,15 @@ def generate(ctx):
                 index.pop()
             index.append(("ellipsis", None))
         yield "vindex", {"shape": shape, "chunks": chunks, "index": index, "ashapes": ashapes}
+    # _vindex_array at graph level
+    for _ in range(ctx.n(120, 2000)):
+        nd = rng.randint(1, 3)
+        shape = [rng.randint(1, 6) for _ in range(nd)]
+        chunks = [list(random_chunks(rng, n, zeros=0.15)) for n in shape]
+        axes = sorted(rng.sample(range(nd), rng.randint(1, nd)))
+        npts = rng.choice([0, 1, 2, 3, 5, 8, 13])
+        pts = [[rng.randrange(shape[a]) for a in axes] for _ in range(npts)]
+        yield "vindexplan", {"chunks": chunks, "axes": axes, "points": pts}
     # vindex with no points, incl. on axes of length zero (their largest chunk is 0)
     for _ in range(ctx.n(12, 120)):
         nd = rng.randint(1, 3)
